@@ -161,3 +161,97 @@ def fuse_parallel_subcircuits(c):
     out.usepulses.extend(c.usepulses)
     out.body.statements.extend(stmt(s) for s in c.body.statements)
     return out, n[0]
+
+
+def type_macro_parameters(c):
+    """The same circuit with every macro re-made from core constructors, its parameters carrying the KIND their use in the
+    body implies (a parameter handed to a native gate's qubit parameter becomes ParamType.QUBIT, one used as index INT,
+    one indexed as a register REGISTER, ...), as a program written against the core classes would declare them.  Parameters
+    whose kind the body does not determine (only handed on to other macros, or used with conflicting kinds) stay untyped.
+    Returns (new circuit, number of parameters that got a kind)."""
+    from jaqalpaq.core import Circuit, Macro, BlockStatement, LoopStatement, GateStatement, NamedQubit, Parameter, ParamType
+
+    typed = [0]
+
+    def infer(macro):
+        kinds = {}
+
+        def note(p, kind):
+            if isinstance(p, Parameter) and any(p is q for q in macro.parameters):
+                kinds.setdefault(p.name, set()).add(kind)
+
+        def walk(s):
+            if isinstance(s, GateStatement):
+                gd = s.gate_def
+                native = not isinstance(gd, Macro)
+                for pdef, val in zip(gd.parameters, s.parameters.values()):
+                    if isinstance(val, NamedQubit):
+                        note(val.alias_from, ParamType.REGISTER)
+                        note(val.alias_index, ParamType.INT)
+                    elif native and pdef.kind is not None and pdef.kind != ParamType.NONE:
+                        note(val, pdef.kind)
+                    else:
+                        note(val, None)
+            elif isinstance(s, LoopStatement):
+                note(s.iterations, ParamType.INT)
+                walk(s.statements)
+            elif isinstance(s, BlockStatement):
+                if s.subcircuit:
+                    note(s.iterations, ParamType.INT)
+                for x in s.statements:
+                    walk(x)
+
+        walk(macro.body)
+        return {n: next(iter(k)) for n, k in kinds.items() if len(k) == 1 and None not in k}
+
+    def rebuild(macro):
+        kinds = infer(macro)
+        new = {p.name: (Parameter(p.name, kinds[p.name]) if p.name in kinds else p) for p in macro.parameters}
+        typed[0] += len(kinds)
+        old = {id(p): new[p.name] for p in macro.parameters}
+
+        def val(v):
+            if isinstance(v, Parameter) and id(v) in old:
+                return old[id(v)]
+            if isinstance(v, NamedQubit) and (id(v.alias_from) in old or id(v.alias_index) in old):
+                return val(v.alias_from)[val(v.alias_index)]
+            return v
+
+        def stmt(s):
+            if isinstance(s, GateStatement):
+                return s.gate_def(*[val(v) for v in s.parameters.values()])
+            if isinstance(s, LoopStatement):
+                return LoopStatement(val(s.iterations), stmt(s.statements))
+            if isinstance(s, BlockStatement):
+                return BlockStatement(parallel=s.parallel, subcircuit=s.subcircuit, iterations=val(s.iterations),
+                                      statements=[stmt(x) for x in s.statements])
+            return s
+
+        return Macro(macro.name, [new[p.name] for p in macro.parameters], stmt(macro.body))
+
+    out = Circuit(native_gates=c.native_gates)
+    out.constants.update(c.constants)
+    out.registers.update(c.registers)
+    for name, m in c.macros.items():
+        out.macros[name] = rebuild(m)
+    out.usepulses.extend(c.usepulses)
+
+    def rebind(s):
+        """calls in the body refer to the re-made macros"""
+        if isinstance(s, GateStatement):
+            if isinstance(s.gate_def, Macro) and s.name in out.macros:
+                return out.macros[s.name](*s.parameters.values())
+            return s
+        if isinstance(s, LoopStatement):
+            return LoopStatement(s.iterations, rebind(s.statements))
+        if isinstance(s, BlockStatement):
+            return BlockStatement(parallel=s.parallel, subcircuit=s.subcircuit, iterations=s.iterations,
+                                  statements=[rebind(x) for x in s.statements])
+        return s
+
+    # macros calling macros: re-bind inside the re-made bodies too (definition order = dependency order)
+    for name in list(out.macros):
+        m = out.macros[name]
+        out.macros[name] = Macro(m.name, m.parameters, rebind(m.body))
+    out.body.statements.extend(rebind(s) for s in c.body.statements)
+    return out, typed[0]
